@@ -13,8 +13,14 @@ def main(argv):
     if not argv:
         print(__doc__); return 2
     if argv[0] == "dump":
-        progs = load()
-        which = argv[2] if len(argv) > 2 else "lib"
+        if "--raw" in argv:
+            progs = load()
+        else:
+            import engine
+            progs = engine.load_progs()
+        argv = [a for a in argv if a != "--raw"]
+        pos = [a for a in argv if not a.startswith("--")]
+        which = pos[2] if len(pos) > 2 else "lib"
         for b in progs[which].bodies.values():
             if argv[1] in b.name:
                 print(b.dump(live_only="--live" in argv)); print()
